@@ -1,5 +1,5 @@
 """C07 — the filter is total: arbitrary input never crashes or hangs it."""
-import t2t, gen, impl
+import t2t, gen, impl, corr
 
 OBLIGATIONS = ['Yalafi.C07_scan_total', 'Yalafi.C07_removeLines_total', 'Yalafi.C07_ml_total']
 
@@ -41,8 +41,6 @@ def run(ctx):
             if rng.random() < ctx.scale(0.25, 1.0):
                 cases.append({'src': rng.choice(['', 'A ', '\\begin{itemize}']) + nm + t, 'opts': {'pack': '*', 'lang': rng.choice(['', 'de', 'ru'])},
                               'multi': rng.random() < 0.2, 'kind': 'trunc', 'words': None, 'files': {'f1.tex': '\\footnote{x}\\newcommand{\\q}{Q}'}})
-    for c in cases:
-        c['want_toks'] = False
     ctx.stats['_rule'] = ('G-doc documents, every prefix cut at a construct end, single-token deletions/swaps/insertions (G-mut), token soup over '
                           'every token kind and known macro name (G-soup), every built-in macro name followed by truncated argument shapes; all option '
                           'records; non-trivial = distinct source/option pair')
@@ -56,6 +54,7 @@ def run(ctx):
                           thresh=c.get('thresh'), kind=c['kind'], trace=r.get('trace'))
         if len(ctx.samples) < 4 and c['kind'] in ('mut', 'trunc'):
             ctx.sample({'src': c['src'][:300], 'opts': c.get('opts'), 'outcome': r['outcome']})
+    corr.t2t(ctx, cases, results, proj=('outcome', 'toks'), limit=ctx.scale(2500, 40000))
 
 def replay(data):
     v = data['violation']
